@@ -40,7 +40,8 @@ pub enum CancelOf {
 
 #[derive(Clone, Debug, Serialize, Deserialize)]
 pub enum PeerKind {
-    Req { id: IdRef, deadline: Dl, sampled: bool },
+    /// `sampled` is ignored when `untraced` (all-zero trace context, as an untraced client sends)
+    Req { id: IdRef, deadline: Dl, sampled: bool, #[serde(default)] untraced: bool },
     Cancel { of: CancelOf },
     /// The peer ends the inbound side here (nothing is sent afterwards).
     HalfClose,
@@ -200,7 +201,7 @@ pub fn gen(rng: &mut Rng, focus: SFocus) -> ServerScn {
                 SFocus::Deadlines => Dl::Ms(*rng.pick(&[-5i64, 0, 1, 2, 5, 5, 10, 20, 50])),
                 _ => Dl::Ms(*rng.pick(&[-5i64, 0, 5, 20, 50, 1000, 1000, 10_000, 10_000])),
             };
-            PeerKind::Req { id, deadline, sampled: rng.chance(500) }
+            PeerKind::Req { id, deadline, sampled: rng.chance(500), untraced: rng.chance(150) }
         };
         script.push(PeerAct { delay_ms, kind });
         // handler plan (used only if the entry is a request that gets yielded)
@@ -253,7 +254,16 @@ pub fn gen(rng: &mut Rng, focus: SFocus) -> ServerScn {
             stalls.push((rng.range(0, 6), rng.range(1, 20)));
         }
     }
-    let subscriber = if focus == SFocus::Extreme { rng.below(3) as u8 } else { 0 };
+    let subscriber = if focus == SFocus::Extreme {
+        rng.below(3) as u8
+    } else if focus == SFocus::Deadlines && rng.chance(200) {
+        2
+    } else if focus == SFocus::General && rng.chance(100) {
+        // a log-only (formatting) subscriber
+        1
+    } else {
+        0
+    };
     let long = focus == SFocus::Extreme && rng.chance(250);
     if long {
         // one or two requests with deadlines years ahead whose handlers never finish
@@ -261,7 +271,7 @@ pub fn gen(rng: &mut Rng, focus: SFocus) -> ServerScn {
         handlers.truncate(2);
         for a in script.iter_mut() {
             a.delay_ms = 0;
-            a.kind = PeerKind::Req { id: IdRef::Fresh, deadline: Dl::Secs(*rng.pick(&[400u64, 700, 1278, 1500, 3650, 10_950]) * 86_400), sampled: false };
+            a.kind = PeerKind::Req { id: IdRef::Fresh, deadline: Dl::Secs(*rng.pick(&[400u64, 700, 1278, 1500, 3650, 10_950]) * 86_400), sampled: false, untraced: false };
         }
         for h in handlers.iter_mut() {
             h.steps = vec![HStep::Never];
@@ -664,6 +674,7 @@ pub fn run(scn: &ServerScn, tape: Tape, _logging: bool) -> RunOutput {
             let cfg = server::Config { pending_response_buffer: scn.resp_buf };
             let base = BaseChannel::new(cfg, transport);
             let shared = ServerShared::new();
+            shared.check_current.set(scn.subscriber == 2);
             let link_m = link.clone();
             let mon: Rc<dyn Fn(bool, bool)> = Rc::new(move |begin, pending| {
                 if begin {
@@ -690,7 +701,7 @@ pub fn run(scn: &ServerScn, tape: Tape, _logging: bool) -> RunOutput {
                         tokio::time::sleep(Duration::from_millis(a.delay_ms)).await;
                     }
                     match &a.kind {
-                        PeerKind::Req { id, deadline, sampled } => {
+                        PeerKind::Req { id, deadline, sampled, untraced } => {
                             let rid = match id {
                                 IdRef::Fresh => {
                                     next_id += 1;
@@ -716,10 +727,14 @@ pub fn run(scn: &ServerScn, tape: Tape, _logging: bool) -> RunOutput {
                                 IdRef::Raw(x) => *x,
                             };
                             ids.push(Some(rid));
-                            let Some(ctx) = mk_ctx(&sim_p, deadline, 0x5000 + i as u64, PEER_SPAN_BASE + i as u64, *sampled) else {
+                            let Some(mut ctx) = mk_ctx(&sim_p, deadline, 0x5000 + i as u64, PEER_SPAN_BASE + i as u64, *sampled) else {
                                 sim_p.log(EvKind::Note { what: "req_skipped", a: i as i64, b: 0 });
                                 continue;
                             };
+                            if *untraced {
+                                ctx.trace_context = trace::Context::default();
+                                sim_p.count("probe.untraced_request");
+                            }
                             peer_p.push(ClientMessage::Request(Request { context: ctx, id: rid, message: i as u64 }));
                         }
                         PeerKind::HalfClose => {
@@ -1043,7 +1058,18 @@ pub fn build_model(log: &[Ev], node: u8, link: u8) -> ServerModel {
     for (id, ixs) in by_id {
         for w in ixs.windows(2) {
             let p = &m.incs[w[0]];
-            if p.resp.is_empty() && (p.finish.is_some() || p.unrun.is_some()) {
+            // a response is (possibly) sitting in the buffer only if the execute future ran to
+            // its end before the request was removed by a Cancel: a handler that finished but
+            // was still parked on a full response buffer when the Cancel was read is aborted
+            // there and leaves nothing behind. Removal by expiry is not observable, so a
+            // finished handler whose request was not cancelled counts as possibly buffered.
+            let buffered = p.finish.is_some()
+                && match (p.exec_done, p.cancel_read) {
+                    (Some(d), Some(c)) => d < c,
+                    (None, Some(_)) => false,
+                    _ => true,
+                };
+            if p.resp.is_empty() && (buffered || p.unrun.is_some()) {
                 m.unclean.insert(id);
             }
         }
@@ -1407,6 +1433,33 @@ pub fn check(scn: &ServerScn, log: &[Ev], sim: &Sim, node: u8) -> Vec<Violation>
             }
         }
     }
+    // a throttle response must reach the peer: written but still unflushed at a (writable) idle
+    // point, it is not a response the refused request has received
+    {
+        let mut unflushed_throttle: Vec<(u64, u64)> = Vec::new(); // (seq, id)
+        for e in log {
+            match &e.kind {
+                EvKind::Note { what: "teardown", .. } => break,
+                EvKind::TOp { link: 0, op: Op::Send, res: Res::Ok, item: Some(Item::Resp { id, err: Some((_, d)), .. }) } if d == THROTTLE_DETAIL => {
+                    unflushed_throttle.push((e.seq, *id));
+                }
+                EvKind::TOp { link: 0, op: Op::Flush, res: Res::Ok, .. } | EvKind::TOp { link: 0, op: Op::Close, res: Res::Ok, .. } => unflushed_throttle.clear(),
+                EvKind::Idle => {
+                    let ok_point = scn.link.coupled
+                        && !stalled_at(e.seq)
+                        && first_fail.map(|f| f.0 > e.seq).unwrap_or(true)
+                        && over.map(|o| o > e.seq).unwrap_or(true);
+                    if ok_point {
+                        if let Some((s, id)) = unflushed_throttle.first() {
+                            v.push(viol("C12", "throttle-count", &["unflushed"], format!("throttle response for id {id} written at seq {s} is still unflushed at idle seq {}: the refused request has not received it", e.seq)));
+                            unflushed_throttle.clear();
+                        }
+                    }
+                }
+                _ => {}
+            }
+        }
+    }
     // C10 server
     if let Some(e) = stream_end {
         if first_fail.is_none() {
@@ -1457,7 +1510,7 @@ pub fn check(scn: &ServerScn, log: &[Ev], sim: &Sim, node: u8) -> Vec<Violation>
                 continue;
             }
             if let Some(i) = m.incs.iter().find(|i| i.tag == *inc as u64) {
-                if scn.subscriber == 0 {
+                if scn.subscriber != 2 {
                     if *trace != i.trace || *sampled != i.sampled {
                         v.push(viol("C18", "handler-mismatch", &[], format!("tag {}: handler saw trace {trace:x}/{sampled}, request carried {:x}/{}", i.tag, i.trace, i.sampled)));
                     }
@@ -1468,6 +1521,17 @@ pub fn check(scn: &ServerScn, log: &[Ev], sim: &Sim, node: u8) -> Vec<Violation>
                 if *deadline_ms != i.deadline {
                     v.push(viol("C07", if *deadline_ms < i.deadline { "earlier" } else { "stretched" }, &["in-memory"], format!("tag {}: request deadline {}, handler observed {}", i.tag, i.deadline, deadline_ms)));
                 }
+            }
+        }
+    }
+
+    if scn.subscriber == 2 {
+        for e in log {
+            match &e.kind {
+                EvKind::Note { what: "ctx_current", a, b } if *b != 0 => {
+                    v.push(viol("C07", "span-scope", &[], format!("tag {a}: context::current() inside the handler is {b} ms off the handler's deadline")));
+                }
+                _ => {}
             }
         }
     }
